@@ -197,10 +197,27 @@ def run(f, fixture, rep, cfg, tier):
         rep.check(var in ("UnsupportedDigestAlgorithm",), "R4", "err|%s" % var, "error exit %s is in the allowed set" % var,
                   "verify_digests can fail with %s, which is not a digest verdict" % var, b.span)
     allowed_q = (r"Header::<.*>::write", r"Option::<.*>::ok_or(_else)?$")
+    from terms import known_fns
+
+    def q_ok(call, depth=0):
+        if any(re.search(p, call.full) or re.search(p, call.decl) for p in allowed_q):
+            return True
+        # a helper introduced after the rules were written: all of *its* error exits must be allowed ones
+        path = call.rpath if (call.rpath and call.rlocal) else (call.decl if call.local else None)
+        hb = f.bodies.get(path) if path else None
+        if hb is None or path in known_fns() or depth > 3:
+            return False
+        if err_assign_blocks(hb):
+            return False
+        for (_bb, rc2) in residual_return_blocks(hb):
+            s2 = question_mark_source(hb, rc2)
+            if not s2 or not all(q_ok(x, depth + 1) for x in s2):
+                return False
+        return True
     for (bb, rc) in residual_return_blocks(b):
         srcs = question_mark_source(b, rc)
         names = [s.decl for s in srcs] or ["?"]
-        ok = all(any(re.search(p, s.full) or re.search(p, s.decl) for p in allowed_q) for s in srcs) and bool(srcs)
+        ok = all(q_ok(s) for s in srcs) and bool(srcs)
         rep.check(ok, "R4", "q|%s" % ",".join(sorted(set(names))), "`?` exit propagates %s" % names,
                   "verify_digests can fail through `?` on %s, which is not a digest verdict" % names, rc.loc())
 
